@@ -127,6 +127,11 @@ def run(ctx):
 
 
 def run_cfg(ctx, fx):
+    # R11.4 (shared with C01) nothing but the timeout wrapper abandons an invocation: every payload runs the handler of its
+    # message on all its paths and drives the handler future to completion (a payload that races the handler against the
+    # caller's interest, or skips it, abandons invocations although no limit is configured)
+    from props import c01 as _c01
+    core.shared(ctx, "R11.4", _c01.check_payloads, ctx, fx, fx.cfg, "R11.4")
     # R11.1 setters
     setters = {
         "actor::builder::BaseActorBuilder::<A, P>::timeout": "Some",
